@@ -75,9 +75,13 @@ func optimizeReal(patch []byte, oldDir, newDir string, c *C07Case, res *DiffResu
 			o.err = fmt.Sprintf("PANIC %v", r)
 		}
 	}()
+	outComp := c.OutComp.settings()
+	if c.OutComp.Algo == "default" {
+		outComp = nil // the optimizer's own default (brotli q9)
+	}
 	rc, err := rediff.NewContext(rediff.Params{
 		PatchReader: bytesSourceUnresumed(patch), Partitions: c.Partitions, SuffixSortConcurrency: c.Conc,
-		ForceMapAll: c.Force, RediffSizeLimit: c.Limit, Compression: c.OutComp.settings(), Consumer: quietConsumer,
+		ForceMapAll: c.Force, RediffSizeLimit: c.Limit, Compression: outComp, Consumer: quietConsumer,
 	})
 	if err != nil {
 		o.err = "ERR " + err.Error()
@@ -332,7 +336,7 @@ func runC07(env *Env) {
 	for i := range cases {
 		c := &C07Case{PairCase: PairCase{Seed: rng.Next(), Opts: wvlib.PairOpts{MaxFiles: 5, SmallOnly: i%4 != 0, Symlinks: true}},
 			Partitions: rng.Pick(0, 1, 2, 3, 8, 16, rng.Intn(17)), Conc: rng.Pick(0, 0, 1, 2, -1), Force: rng.Intn(3) == 0,
-			OutComp: []Comp{{"none", 0}, {"gzip", 1}, {"brotli", 1}, {"none", 0}}[rng.Intn(4)], Tiny: i%2 == 1, InPlace: i%5 == 2, Ties: i%8 == 4}
+			OutComp: []Comp{{"none", 0}, {"gzip", 1}, {"brotli", 1}, {"none", 0}, {"default", 0}}[rng.Intn(5)], Tiny: i%2 == 1, InPlace: i%5 == 2, Ties: i%8 == 4}
 		switch rng.Intn(6) {
 		case 0:
 			c.Limit = int64(rng.Pick(1, 100, wvlib.BS, 2*wvlib.BS))
